@@ -33,8 +33,12 @@ DRV_OP(adim) {
         } else if (k == "alias") {
             d = da.appendAliasRangeDimension();
         } else if (k == "frame") {
+            // adim <array> frame <frame slot|$-> <column index | ~ (the overload without a column) | n:<hex name>>
             if (a.size() != 5) throw ProtoError("adim frame arity");
-            d = da.appendDataFrameDimension(slot(a[3]).d, (unsigned) tokNat(a[4]));
+            nix::DataFrame fr = a[3] == "$-" ? nix::DataFrame() : slot(a[3]).d;
+            if (a[4] == "~") d = da.appendDataFrameDimension(fr);
+            else if (a[4].compare(0, 2, "n:") == 0) d = da.appendDataFrameDimension(fr, unhexStr(a[4].substr(2)));
+            else d = da.appendDataFrameDimension(fr, (unsigned) tokNat(a[4]));
         } else throw ProtoError("adim kind " + k);
         return std::to_string(d.index());
     });
